@@ -19,7 +19,7 @@ inline rc::Gen<FrameT> frame_t_gen() {
         t.count_any = (int)*gx::range<int64_t>(0, 0xFFFF);
         t.carried = (int)*gx::bnd({0, 1, 2, 3}, 0, 40, 2, 1);
         t.qtype = (int)*gx::pick({0x0E, 0x0E, 0x11, 0x13, 0x12, 0x00, 0xFF});
-        t.qoff = (int)*gx::bnd({0, 1, 0xFFFF, 541, 542, 543}, 0, 0xFFFF, 2, 1);
+        t.qoff = (int)*gx::bnd({0, 0, 1, 0xFFFF, 541, 542, 542, 543, 1084, 1466, 2932}, 0, 0xFFFF, 2, 1);
         t.gen = (int)*gx::bnd({0, 1, 0xFFFF}, 0, 0xFFFF, 1, 1);
         t.trunc = *gx::chance(25) ? (int)*gx::bnd({0, 1, 13, 14, 17, 18, 31, 32, 33, 34, 35, 36, 46}, 0, 9216, 2, 1) : -1;
         t.pad_to_mtu = (int)*gx::pick({0, 0, 1});
